@@ -60,3 +60,20 @@ Example c19_example :
   [([], [Wrote]); ([], [AnnMuting]); ([], [Dropped]); ([], [Wrote]); ([], [AnnAlready]); ([], [Dropped]);
    ([], [Wrote]); ([AnnUnmuting], [Wrote]); ([], [Wrote])].
 Proof. vm_compute. reflexivity. Qed.
+
+From CRS Require Import Model.LockOrder Proofs.LockOrderProofs.
+(** The locking around Ctrl+O (Model/LockOrder.v: the terminal's lock held by
+    goxterm while it runs the control-character handler, Shell.wL, any number
+    of concurrent writers): in every state of every run of the repaired code
+    either everybody has finished or somebody can move - pressing Ctrl+O while
+    output is being written cannot stop the terminal; the handler of the
+    unrepaired code (it locked wL itself, with the terminal's lock held)
+    dead-locks against a single writer, for ever. *)
+Theorem c19_ctrl_o_no_deadlock : forall n sched,
+  let s := run_new (linit n) sched in
+  all_done_new s = true \/ exists w, pcs (lstep_new s w) <> pcs s.
+Proof. exact no_deadlock. Qed.
+Theorem c19_old_handler_deadlocks_refuted :
+  let s := run_old (linit 1) deadlock_sched in
+  kpc s = 1%nat /\ wpc s = [1%nat] /\ forall sched, run_old s sched = s.
+Proof. exact old_deadlocks. Qed.
